@@ -131,6 +131,7 @@ func migrateApplyRun(cmd *cobra.Command, args []string, flags migrateApplyFlags,
 		drv migrate.Driver
 	)
 	for _, f := range pending {
+		simPoint("apply:before-file")
 		if drv, rrw, err = mux.driverFor(ctx, f); err != nil {
 			break
 		}
@@ -140,12 +141,16 @@ func migrateApplyRun(cmd *cobra.Command, args []string, flags migrateApplyFlags,
 		if err = mux.mayRollback(ex.Execute(ctx, f)); err != nil {
 			break
 		}
+		simPoint("apply:before-file-commit")
 		if err = mux.mayCommit(); err != nil {
 			break
 		}
+		simPoint("apply:after-file-commit")
 	}
 	if err == nil {
+		simPoint("apply:before-final-commit")
 		if err = mux.commit(); err == nil {
+			simPoint("apply:after-final-commit")
 			report.Log(migrate.LogDone{})
 		}
 	}
